@@ -772,7 +772,11 @@ func (r *Router) processEvent(ev *types.Event, reqID interface{}) error {
 			}
 
 			// If the span was kept, we want to generate a probe that we'll forward
-			// to a peer IF this span would have been forwarded.
+			// to a peer IF this span would have been forwarded. The kept span itself
+			// is already queued for upstream transmission, so the probe must be a copy:
+			// marking or re-addressing the queued event would change what is sent upstream.
+			probe := *ev
+			ev = &probe
 			ev.Data.MetaRefineryProbe.Set(true)
 			isProbe = true
 		}
